@@ -231,8 +231,17 @@ func RunHarness(h *Harness, opt *Options) (*Result, error) {
 		for i, s := range rr.Samples {
 			o := outs[i]
 			res.SamplesChecked++
+			schedOnly := o.Outcome == "fail" && len(o.Fails) > 0
+			for _, f := range o.Fails {
+				if !strings.HasPrefix(f, "sched:") {
+					schedOnly = false
+				}
+			}
 			if o.Outcome == "ok" && equalStrs(o.Obs, s.Observed) {
 				res.SamplesAgreed++
+			} else if schedOnly {
+				// the native scheduler took an interleaving on which a schedule-dependent assertion fails; not comparable with this path
+				res.SamplesChecked--
 			} else {
 				res.SampleMismatches = append(res.SampleMismatches, fmt.Sprintf("case %v: native outcome=%s fails=%v panic=%q obs=%v; engine ok obs=%v",
 					cases[i], o.Outcome, o.Fails, o.Panic, o.Obs, s.Observed))
@@ -249,7 +258,22 @@ func RunHarness(h *Harness, opt *Options) (*Result, error) {
 					// replay under the Go race detector
 					fired, _ := NativeReplayRace(opt, h.Pkg, l.ov, []NativeCase{vr.Case})
 					vr.Reproduced = fired
-				} else if strings.HasPrefix(v.Label, "write-to-frozen:") || v.Label == "deadlock" {
+				} else if strings.HasPrefix(v.Label, "sched:") {
+					// schedule dependent: replay the case repeatedly and accept if any native run shows it
+					many := make([]NativeCase, 60)
+					for i := range many {
+						many[i] = vr.Case
+					}
+					if outs2, err := NativeReplay(opt, h.Pkg, l.ov, many); err == nil {
+						for _, o2 := range outs2 {
+							for _, f := range o2.Fails {
+								if labelOf(f) == v.Label {
+									vr.Reproduced = true
+								}
+							}
+						}
+					}
+				} else if strings.HasPrefix(v.Label, "write-to-frozen:") || v.Label == "deadlock" || strings.HasPrefix(v.Label, "fault:") {
 					// engine-only monitors: not observable natively; reproduced if the native run follows the same path without diverging
 					vr.Reproduced = o.Outcome == "ok" || o.Outcome == "fail"
 				} else {
@@ -268,7 +292,7 @@ func RunHarness(h *Harness, opt *Options) (*Result, error) {
 }
 
 func labelOf(msg string) string {
-	if i := strings.IndexByte(msg, ':'); i > 0 {
+	if i := strings.Index(msg, ": "); i > 0 {
 		return msg[:i]
 	}
 	return msg
